@@ -26,7 +26,9 @@ Nodes == << ERecurse(FALSE), ERecurse(TRUE), EPath(A), EPipe(EPath(A), ESplat), 
 Derive == << ENul("REVERSE"), ENul("SORT"), EUn("SORT_BY", EPath(A)), ENul("UNIQUE"), ESlice(ELit(IntV(1)), ENul("LENGTH")), ESlice(ELit(IntV(0)), ELit(IntV(2))),
              EUn("MAP", ESelf), EUn("FILTER", EBin("NOT_EQUALS", ESelf, ELit(IntV(0)))), ECollect(ESplat), ECollect(EPipe(ESplat, EUn("SELECT", ECmp(TRUE, FALSE, ESelf, ELit(IntV(0)))))),
              EBin("ADD", ESelf, ESelf), EFlatten(-1), EUn("UNIQUE_BY", EPath(A)), EUn("GROUP_BY", EPath(A)), ENul("TO_ENTRIES"), EUn("WITH_ENTRIES", ESelf),
-             EBin("ADD", ESelf, ECollect(ELit(IntV(7)))) >>
+             EBin("ADD", ESelf, ECollect(ELit(IntV(7)))),
+             EUn("PICK", ECollect(EUnion(ELit(StrV(B)), ELit(StrV(A))))), EUn("OMIT", ECollect(ELit(StrV(A)))), EUn("PICK", ECollect(EUnion(ELit(IntV(1)), ELit(IntV(0))))),
+             EUn("OMIT", ECollect(ELit(IntV(0)))), EBin("MULTIPLY", ESelf, EObject(ELit(StrV(C)), ELit(IntV(1)))) >>
 ExprSeq ==
      FlatMap(LAMBDA n : [i \in DOMAIN Claims |-> ECollect(EPipe(n, Claims[i]))], Nodes)                                           \* (a) document nodes
   \o FlatMap(LAMBDA f : FlatMap(LAMBDA n : [i \in DOMAIN Claims |-> EPipe(EUpdate(EPath(A), f), ECollect(EPipe(n, Claims[i])))], << EPipe(EPath(A), ESplat), EPipe(EPath(A), ERecurse(FALSE)) >>), Derive)   \* after assigning the derived value back
@@ -35,8 +37,8 @@ ExprSeq ==
                             EPipe(EAssign(EPath(C), EPath(A)), EPipe(EDelete(Idx(EPath(C), 0)), ECollect(EPipe(EPipe(EPath(A), ERecurse(FALSE)), c)))),
                             EPipe(EDelete(Idx(EPath(A), 1)), ECollect(EPipe(EPipe(EPath(A), ESplat), c))),
                             EPipe(EAssign(Idx(EPath(A), 5), ELit(IntV(7))), ECollect(EPipe(EPipe(EPath(A), ESplat), c))) >>, Claims)
-  \o FlatMap(LAMBDA f : << EPipe(EPath(A), f), f >>, Derive)                                                                   \* (b) derived containers (values only)
-NDerived == 2 * Len(Derive)
+  \o FlatMap(LAMBDA f : << EPipe(EPath(A), f), f, EPipe(EPath(B), f) >>, Derive)                                                                   \* (b) derived containers (values only)
+NDerived == 3 * Len(Derive)
 
 ASSUME \A i \in DOMAIN ExprSeq : i % NShards # Shard \/ PrintT("@@" \o ToJson([t |-> "e", i |-> i, e |-> ExprSeq[i]]))
 ASSUME \A i \in DOMAIN DocSeq : PrintT("@@" \o ToJson([t |-> "d", i |-> i, d |-> DocSeq[i]]))
